@@ -22,7 +22,7 @@ func init() {
 	register(&Workload{Prop: "C15", Variant: "differential", Horizon: 30 * time.Minute, MaxSteps: 1500000, MaxG: 8192, Spin: 40000, PCTLen: 8000, Body: c15Differential})
 }
 
-var c15Ops = []string{"Tell", "Ask/Reply", "Kill(immediate)", "Kill(poison)", "Watch+death", "Watch+Unwatch+death", "Ping", "PipeTo(success)", "PipeTo(error)", "Scheduler.Once(receiver)", "ActorSystem.Tell", "ActorSystem.Kill", "Reply-to-remote-asker", "Watch(two same-path watchers)+death", "Watch(two same-path watchers)+Unwatch(one)+death", "PipeTo(plain error result, forwarder local/remote)", "Ask/Reply(library error reply)"}
+var c15Ops = []string{"Tell", "Ask/Reply", "Kill(immediate)", "Kill(poison)", "Watch+death", "Watch+Unwatch+death", "Ping", "PipeTo(success)", "PipeTo(error)", "Scheduler.Once(receiver)", "ActorSystem.Tell", "ActorSystem.Kill", "Reply-to-remote-asker", "Watch(two same-path watchers)+death", "Watch(two same-path watchers)+Unwatch(one)+death", "PipeTo(plain error result, forwarder local/remote)", "Ask/Reply(library error reply)", "Respawn(same name)+fresh-ref Tell+Ping", "Respawn(same name)+fresh-ref Tell+Ping+Kill"}
 
 func c15Differential(r *R) {
 	op := r.Index % len(c15Ops)
@@ -125,6 +125,7 @@ func c15Differential(r *R) {
 	type run struct{ where, addr, tpath, fpath string }
 	runs := []run{{"local", a.Addr, "/t-local", "/fwd-local"}, {"remote", b.Addr, "/t-remote", "/fwd-remote"}}
 	type start struct{ r run }
+	type second struct{ r run } // ops 17, 18: the target died and a namesake was created; the script goes on with a fresh reference
 	a.Do(func() {
 		opRef, _ := a.Sys.ActorOf(vivid.ActorFN(func(ctx vivid.ActorContext) {
 			switch m := ctx.Message().(type) {
@@ -220,6 +221,27 @@ func c15Differential(r *R) {
 						vsimrt.Yield()
 						obs(where, fmt.Sprintf("ask-completed message-nil=%v %s", m == nil, errClass(err)))
 					})
+				case 17, 18:
+					// the first incarnation receives a message; its own node terminates it and creates an actor of the same
+					// name; the script then reaches the second incarnation through a reference made afresh
+					ctx.Tell(tref, newRMsg("op", 17, 40, 0))
+					rr, self := m.r, ctx.Ref()
+					vsimrt.Go("c15.respawn", func() {
+						vsimrt.SetTag(1)
+						vsimrt.Sleep(500 * time.Millisecond)
+						n := a
+						if where == "remote" {
+							n = b
+						}
+						n.Do(func() {
+							lr, _ := n.Sys.CreateRef(rr.addr, rr.tpath)
+							n.Sys.Kill(lr, false, "c15")
+						})
+						vsimrt.Sleep(500 * time.Millisecond)
+						target(n, rr.tpath[1:], where)
+						vsimrt.Sleep(500 * time.Millisecond)
+						a.Do(func() { a.Sys.Tell(self, second{rr}) })
+					})
 				case 9:
 					_ = ctx.Scheduler().Once(tref, 50*time.Millisecond, newRMsg("op", 9, 30, 0))
 				case 10:
@@ -236,6 +258,23 @@ func c15Differential(r *R) {
 						obs(where, "ask-completed "+errClass(err))
 					})
 				}
+			case second:
+				where := m.r.where
+				tr, _ := ctx.System().CreateRef(m.r.addr, m.r.tpath)
+				ctx.Tell(tr, newRMsg("op", 18, 40, 0))
+				vsimrt.Go("c15.ping2", func() {
+					vsimrt.SetTag(1)
+					pong, err := ctx.Ping(tr, 5*time.Second)
+					vsimrt.Yield()
+					if err == nil && pong != nil {
+						obs(where, "second-incarnation-pong")
+					} else {
+						obs(where, "second-incarnation-ping-failed "+errClass(err))
+					}
+					if op == 18 {
+						a.Do(func() { a.Sys.Kill(tr, false, killReason) })
+					}
+				})
 			case *vivid.OnKilled:
 				for _, rr := range runs {
 					if m.Ref != nil && m.Ref.GetPath() == rr.tpath {
@@ -324,6 +363,22 @@ func c15Differential(r *R) {
 			if fmt.Sprint(notices) != fmt.Sprint(sortedCopy(exp)) && !(len(notices) == 0 && len(exp) == 0) {
 				r.Fail("C15/watch-notices-wrong op="+c15Ops[op], "operation %s with a %s target: the watchers received %v, expected %v (A:/op and B:/op are different actors with the same path; user codec: %v)", c15Ops[op], side, notices, exp, codec)
 				return
+			}
+		}
+	}
+	// ... and for the re-created target: a reference made after the namesake exists reaches the namesake
+	if op == 17 || op == 18 {
+		for i, got := range [][]string{loc, rem} {
+			side := []string{"local", "remote"}[i]
+			for _, need := range []string{"target-received seq=17 intact=true", "target-received seq=18 intact=true", "second-incarnation-pong"} {
+				found := false
+				for _, o := range got {
+					found = found || o == need
+				}
+				if !found {
+					r.Fail("C15/respawned-target-unreachable op="+c15Ops[op], "operation %s with a %s target: %q is missing from the outcome %v (the first actor of that name was terminated and a second one created before the reference was made; user codec: %v)", c15Ops[op], side, need, got, codec)
+					return
+				}
 			}
 		}
 	}
